@@ -271,6 +271,9 @@ class Ctx:
                     walk(v, path + (k,))
                 elif isinstance(v, (bool, int)) or (isinstance(v, list) and v) or (k == "exc" and v == "none"):
                     cands.append(path + (k,))
+                    if isinstance(v, list) and isinstance(v[-1], dict):      # also inside one element of a list of records
+                        j = self.bind_rng.randrange(len(v))
+                        walk(v[j], path + (k, j))
         walk(rec, ())
         if not cands:
             return rec
@@ -293,7 +296,7 @@ class Ctx:
             d[k] = v[:-1]
         else:
             d[k] = "ValueError"
-        self.bind_corrupted[rid] = ".".join(path)
+        self.bind_corrupted[rid] = ".".join("*" if isinstance(x, int) else x for x in path)
         return new
 
     # -- bookkeeping ---------------------------------------------------------
